@@ -32,6 +32,7 @@
 from __future__ import annotations
 
 import re
+import string
 from typing import NewType, cast
 
 from packaging.licenses._spdx import EXCEPTIONS, LICENSES
@@ -57,6 +58,9 @@ class InvalidLicenseExpression(ValueError):
     """
 
 
+_ASCII_LOWER = str.maketrans(string.ascii_uppercase, string.ascii_lowercase)
+
+
 def canonicalize_license_expression(
     raw_license_expression: str,
 ) -> NormalizedLicenseExpression:
@@ -74,7 +78,9 @@ def canonicalize_license_expression(
 
     # Normalize to lower case so we can look up licenses/exceptions
     # and so boolean operators are Python-compatible.
-    license_expression = license_expression.lower()
+    # Only ASCII letters are folded: str.lower() would also turn U+212A KELVIN SIGN
+    # into "k" and so let a non-ASCII spelling match an SPDX identifier.
+    license_expression = license_expression.translate(_ASCII_LOWER)
 
     tokens = license_expression.split()
 
